@@ -49,8 +49,9 @@ def _const_str(e):
 
 def _eval_test(t, st, names):
     """Truth of test expr under state, or None if not about the atoms."""
-    if isinstance(t, ast.Compare) and len(t.ops) == 1 and isinstance(t.left, ast.Name):
-        nm = t.left.id
+    if isinstance(t, ast.Compare) and len(t.ops) == 1 and (isinstance(t.left, ast.Name) or dotted(t.left) == "self.version"):
+        # the version may be read through a local or as self.version directly
+        nm = t.left.id if isinstance(t.left, ast.Name) else "self.version"
         c = t.comparators[0]
         if nm == names["version"] and _const_str(c) is not None and isinstance(t.ops[0], (ast.Eq, ast.NotEq)):
             v = (st.V == c.value)
@@ -97,10 +98,12 @@ def rule_r1(ctx):
                 names["connection"] = t
             elif isinstance(node.value, ast.Constant) and node.value.value is None and "content_length" in t:
                 names["clh"] = t
+    if names["version"] is None and any(isinstance(x, ast.Compare) and dotted(x.left) == "self.version" for x in ast.walk(f.node)):
+        names["version"] = "self.version"
     if None in names.values():
         raise AnalysisError("cannot identify the ladder's locals: %s" % names)
     # ladder entry: first test node on `version`
-    vtests = [n for n in g.nodes if n.kind == "test" and isinstance(n.ast, ast.Compare) and isinstance(n.ast.left, ast.Name) and n.ast.left.id == names["version"]]
+    vtests = [n for n in g.nodes if n.kind == "test" and isinstance(n.ast, ast.Compare) and dotted(n.ast.left) == names["version"]]
     if not vtests:
         raise AnalysisError("no version test in build_response_header")
     entry = None
@@ -258,7 +261,9 @@ def rule_r2(ctx):
         g2 = cfg_of(a.func)
         in_handler = any(isinstance(h, ast.ExceptHandler) and any(x is a.stmt for x in ast.walk(h)) for h in ast.walk(a.func.node))
         nodes = g2.nodes_of(a.stmt)
-        not_conn = nodes and all(any((not pol) and dotted(t) == "self.connected" for (t, pol) in guards_of(g2, nd)) for nd in nodes)
+        from .common import resolve_locals
+        # `connected` read into a local once counts as well (the store is after-the-fact either way)
+        not_conn = nodes and all(any((not pol) and (dotted(t) == "self.connected" or dotted(resolve_locals(a.func, t)) == "self.connected") for (t, pol) in guards_of(g2, nd)) for nd in nodes)
         if in_handler or not_conn:
             ctx.r.ok(rid, "direct close_on_finish store in %s is after-the-fact (%s)" % (a.func.name, "exception handler" if in_handler else "client gone"), a.loc)
         else:
